@@ -123,7 +123,8 @@ fn check_tape(tape: &[u8], gates: &Gates, stats: &mut Stats, counting: bool, per
     let profile = Profile::default();
     let mut t = Tape::new(tape);
     let unit = gen_unit(&mut t, gates, &profile);
-    let mut choice = t.rest();
+    let derived = crate::tape::derived(tape, 256);
+    let mut choice = Tape::new(&derived);
     let text = spell_unit(&unit, gates);
     let h = hash_str(&text);
     match check_valid(&text, &unit.lib) {
